@@ -162,7 +162,8 @@ pub fn panic_fingerprint(text: &str) -> String {
         None => (text, ""),
     };
     let file = loc.rsplit_once(':').map(|(f, _)| f).unwrap_or(loc);
-    let file = file.trim_start_matches("/repo/");
+    // keep the path from the crate directory on, whatever checkout the build used
+    let file = ["lorawan-encoding/", "lorawan-device/", "lorawan-macros/", "lora-modulation/", "lora-phy/", "harness-", "verif-core/"].iter().filter_map(|k| file.find(k).map(|i| &file[i..])).max_by_key(|s| s.len()).unwrap_or(file);
     format!("panic: {msg} @ {file}")
 }
 
